@@ -518,12 +518,13 @@ func rewriteSpec(s string) (string, error) {
 	out = freshRe.ReplaceAllString(out, "${1}verif_fresh(")
 	out = prevRe.ReplaceAllString(out, "${1}verif_prev(")
 	out = callsRe.ReplaceAllString(out, "${1}verif_${2}(")
+	out = callsRe.ReplaceAllString(out, "${1}verif_${2}(") // again: `same(raw(` - the first match consumed the "("
 	out = istypeRe.ReplaceAllString(out, "${1}verif_${2}[")
 	return out, nil
 }
 
 var callsRe = regexp.MustCompile(`(^|[^\w.])(calls|lastargn|lastarg|lastresn|lastres|nthres|same|raw|fst3|snd3|thd3|fst|snd|le64|haskey)\(`)
-var istypeRe = regexp.MustCompile(`(^|[^\w.])(istype|ptr)\[`)
+var istypeRe = regexp.MustCompile(`(^|[^\w.])(istype|ptr|resval|argval)\[`)
 var oldRe = regexp.MustCompile(`(^|[^\w.])old\(`)
 var freshRe = regexp.MustCompile(`(^|[^\w.])fresh\(`)
 var prevRe = regexp.MustCompile(`(^|[^\w.])prev\(`)
